@@ -45,4 +45,7 @@ def run(tier, seed):
         "router side (devices not addressed / unknown device names elicit nothing): C04's postcondition",
     ]
     chk.min_obligations = 150
+    chk.standin_on_out_of_reach("native publication scenario", "driver.publish", {}, always=True,
+                                bound_text="one driver with a property of every kind (several number formats, set/unset/empty BLOBs, disabled elements and property), getProperties in every "
+                                           "(device, name) combination, run-time value / state changes; every emitted message re-parsed by the library's own parser")
     return chk.finish()
